@@ -134,6 +134,26 @@ func runC15(c *CaseCtx) {
 	if !phase(15+r.Intn(tier(c.Tier, 25, 60)), true) {
 		return
 	}
+	if kind == "kv" && c.Case%4 == 1 {
+		// every record dead at the time of the Merge: all live keys are deleted first (segments whose records are all
+		// dead, including the active one); the writes that follow the Merge must survive the reopen like any other
+		for _, b := range u.Buckets {
+			var ops []Op
+			for _, k := range u.KVKeys {
+				if it := run.M.KV[b][string(k)]; it.live() {
+					ops = append(ops, Op{K: "Delete", B: b, Key: k})
+				}
+				if len(ops) == 3 {
+					run.Tx(TxSpec{Mode: "update", Ops: ops}, false)
+					ops = nil
+				}
+			}
+			if len(ops) > 0 {
+				run.Tx(TxSpec{Mode: "update", Ops: ops}, false)
+			}
+		}
+		c.Stat("merges_with_every_record_dead", 1)
+	}
 	if !doMerge("first") {
 		return
 	}
@@ -141,6 +161,14 @@ func runC15(c *CaseCtx) {
 		return
 	}
 	// writes after Merge (also to merged keys) are as durable as any other
+	if kind == "kv" && c.Case%4 == 1 {
+		// a single small write first: it still fits into whatever segment is the active one after the Merge
+		g.M = run.M
+		run.Tx(TxSpec{Mode: "update", Ops: []Op{{K: "Put", B: u.Buckets[0], Key: u.KVKeys[0], Val: []byte("w")}}}, false)
+		if !run.Reopen() || !run.CheckObs("after-merge-write-reopen") {
+			return
+		}
+	}
 	if !phase(5+r.Intn(15), true) || !run.CheckObs("after-merge-writes") {
 		return
 	}
